@@ -22,6 +22,18 @@ CLAIMED = {
         "technique": "Coq proof over generic executable model + generated tables + differential correspondence (vm_compute)",
         "design": "DESIGN.md section 6, C01",
     },
+    "C03": {
+        "text": "Theorems over an executable model of derive.parameter_sweep as a processor transformer: combinatorial mode is the Cartesian product over the variables in "
+                "sorted-name order with a recursive mixed-radix index law (last variable fastest) and length = product; by_position aligns positions, broadcast cycles "
+                "seq[i mod len] up to the maximum length, unequal lengths are rejected (never truncated); one element per step and element i is the wrapped processor on "
+                "parameters merged computed > provided; probes pass data through and return one result per step; every variable's materialised sequence is published as "
+                "<var>_values for sources, operations and (hard obligation on the repaired fact) probes; an explicit list is the sequence of its elements. "
+                "Closed under the global context. Sweep-centred pipelines run against both the fact-driven and the documented variant of the model every run.",
+        "note": "Models coq/Model/Sweep.v, Pipeline.v, PipelineLib.v; linear ranges only with integer steps (others dropped), log ranges not modelled; expressions restricted to the "
+                "arithmetic fragment with constant divisors (numpy scalars divide by zero to inf).",
+        "technique": "Coq proof over executable model + generated facts + differential correspondence (Spec and Impl variants)",
+        "design": "DESIGN.md section 6, C03",
+    },
     "C08": {
         "text": "Theorems over an executable model of expand_run_space: sorted-key order, mixed-radix characterisation of the Cartesian product (last key fastest), by_position alignment, "
                 "block and combine characterisations, every run carries exactly the union of keys, every documented rejection, cap rejection (unconditional now that the no-blocks cap "
